@@ -390,9 +390,41 @@ class Gen:
         return "\n".join(L) + "\n"
 
 
+def fixed_fd_scripts(prefix, methods=METHODS):
+    """A small library of hand-written descriptor scenarios aimed at the per-descriptor bookkeeping of the
+    back ends (poll array slots, epoll registrations): a slot is vacated in the middle, refilled, the entry
+    that moved is then removed / changed / re-registered on another OS descriptor.  Every variant runs with
+    the object memory reused as it is (keep=1) and poisoned and replaced (keep=0)."""
+    out = []
+    decl = ["O fd %d %s" % (f, t) for f, t in ((1, "pr"), (2, "pr"), (3, "pr"), (4, "sk"))]
+    drain = ["R fd %d 1 0 drain %d" % (f, f) for f in (1, 2, 3, 4)]
+    tail = ["E 2 pwrite 1 1", "E 3 pwrite 2 1", "E 4 pwrite 3 1", "E 5 pwrite 4 1", "E 6 pwrite 1 2"]
+    n = 0
+    for nf in (3, 4):
+        regs = ["S fd_reg %d 1 0 0" % f for f in range(1, nf + 1)]
+        for a in range(1, nf):
+            for variant in ("unreg-last", "swap-last", "set-last", "unreg-swap-a"):
+                body = list(regs) + ["S fd_unreg %d" % a, "S fd_reg %d 1 0 0" % a]
+                if variant == "unreg-last":
+                    body += ["S fd_unreg %d" % nf]
+                elif variant == "swap-last":
+                    body += ["S fd_unreg %d" % nf, "S fd_swapos %d" % nf, "S fd_reg %d 1 0 0" % nf]
+                elif variant == "set-last":
+                    body += ["S fd_set %d 2 1" % nf, "S fd_set %d 1 0" % nf, "S fd_set %d 1 1" % nf]
+                else:
+                    body += ["S fd_unreg %d" % a, "S fd_swapos %d" % a, "S fd_reg %d 1 0 0" % a, "S fd_unreg %d" % nf]
+                for keep in (0, 1):
+                    for m in methods:
+                        n += 1
+                        out.append("\n".join(["B %sf%d.%s.%s method=%s seed=%d maxwait=14 reuse=%d keep=%d" %
+                                              (prefix, n, variant, m, m, n, keep, keep)] + decl[:nf] + body + drain[:nf] +
+                                             [t for t in tail if int(t.split()[3]) <= nf] + ["X"]) + "\n")
+    return out
+
+
 def gen_scripts(seed, count, methods=METHODS, kinds=None, faultgen=None, prefix="r", modes=None, nfd=3):
     """count scripts, each instantiated for every method (same program)."""
-    out = []
+    out = fixed_fd_scripts(prefix, methods) if (kinds is None or "fd" in kinds) and not faultgen else []
     for i in range(count):
         rs = random.Random((seed << 20) + i)
         g = Gen(rs, kinds=kinds, modes=modes, nfd=nfd)
